@@ -81,6 +81,27 @@ pub fn generate(family: &str, seed: u64, tier: &str) -> Vec<String> {
                         }
                     }
                 }
+                if gs(&s["body"], "kind") == "chunked" {
+                    // the same chunking with bare-LF line breaks (framing a lenient client accepts)
+                    let mut ls = s.clone();
+                    ls["body"]["lf"] = json!(["size", "term", "all"][si % 3]);
+                    let lwl = render(&with(&ls, json!({"seed":si}))).wire.len();
+                    let mut lsegs: Vec<Value> = vec![json!({"pre":lwl}), json!({"segs":vec![1; lwl]})];
+                    for cut in 1..lwl {
+                        if (cut + si) % 3 == 0 || thorough {
+                            lsegs.push(json!({"segs":[cut, lwl - cut]}));
+                        }
+                    }
+                    for (qi, seg) in lsegs.iter().enumerate() {
+                        for (pi, p) in read_patterns_small().iter().enumerate() {
+                            if qi >= 2 && (qi + si) % 8 != pi {
+                                continue;
+                            }
+                            out.push(with(&with(&with(&ls, seg.clone()), p.clone()), json!({"seed":si,"garbage":([0usize, 3][(qi + pi) % 2]),
+                                "id":format!("xl-{}-{}-{}", si, qi, pi)})));
+                        }
+                    }
+                }
                 for (gi, g) in [0usize, 3].iter().enumerate() {
                     if gi == 1 && gs(&s["body"], "kind") == "close" {
                         continue; // trailing garbage is payload for a close-delimited body
@@ -140,6 +161,26 @@ pub fn generate(family: &str, seed: u64, tier: &str) -> Vec<String> {
                     }
                 }
                 if kind == "chunked" {
+                    // every single framing octet corrupted
+                    let nfr = (wl - he).saturating_sub(gu(&r.script, "payloadLen"));
+                    let octets = [0x58usize, 0x00, 0xFF, 0x7F];
+                    for pos in 0..nfr {
+                        for (oi, oct) in octets.iter().enumerate() {
+                            if !thorough && oi != (pos + si) % octets.len() {
+                                continue;
+                            }
+                            for (qi, seg) in [json!({"pre":10_000}), json!({"segs":vec![1; wl]})].iter().enumerate() {
+                                for (pi, p) in pats.iter().enumerate() {
+                                    if !thorough && (pos + qi) % 3 != pi % 3 {
+                                        continue;
+                                    }
+                                    out.push(with(&with(&with(s, seg.clone()), p.clone()), json!({"seed":si,
+                                        "fault":{"kind":"bad","what":"corrupt","pos":pos,"octet":oct},
+                                        "id":format!("xc-{}-{}-{}-{}-{}", si, pos, oct, qi, pi)})));
+                                }
+                            }
+                        }
+                    }
                     let nchunks = ga(&s["body"], "chunks").len();
                     for what in ["badhex", "emptysize", "longsize", "hugesize", "nocrlf", "noterm"] {
                         for ci in 0..=nchunks {
@@ -187,6 +228,9 @@ pub fn generate(family: &str, seed: u64, tier: &str) -> Vec<String> {
                         let exts: Vec<bool> = (0..nch).map(|_| r.chance(1, 4)).collect();
                         sc["body"] = json!({"kind":"chunked","chunks":chunks,"ext":exts,"upper":r.chance(1,2),"lz":if r.chance(1,4) {r.range(1,5)} else {0},
                             "lastext": r.chance(1,8)});
+                        if !faulty && r.chance(1, 8) {
+                            sc["body"]["lf"] = json!(*r.pick(&["size", "term", "all"]));
+                        }
                         if r.chance(1, 4) {
                             // a Content-Length next to chunked Transfer-Encoding must be ignored
                             let v = *r.pick(&[0usize, 1, plen, plen + 7, 1 << 20]);
@@ -276,7 +320,9 @@ pub fn generate(family: &str, seed: u64, tier: &str) -> Vec<String> {
                         2 => json!({"kind":"err","at":at,"io":*r.pick(&["reset","aborted","brokenpipe"])}),
                         3 => json!({"kind":"errt","at":at,"io":*r.pick(&["timedout","wouldblock","interrupted"])}),
                         _ => {
-                            if kind == "chunked" {
+                            if kind == "chunked" && r.chance(1, 2) {
+                                json!({"kind":"bad","what":"corrupt","pos":r.below(100_000),"octet":*r.pick(&[0x58usize, 0, 0xFF, 0x7F, 0x47])})
+                            } else if kind == "chunked" {
                                 json!({"kind":"bad","what":*r.pick(&["badhex","emptysize","longsize","hugesize","nocrlf","noterm"]),
                                     "chunk": r.below(ga(&sc["body"],"chunks").len()+1)})
                             } else {
@@ -370,7 +416,13 @@ pub fn generate(family: &str, seed: u64, tier: &str) -> Vec<String> {
                             if gu(st, "maxlen") > 0 && plen > gu(st, "maxlen") {
                                 continue;
                             }
-                            let mut sc = with(&with(&base, st.clone()), json!({"fault":{"kind":"cut","at":at},"extra":2}));
+                            // mostly connection drops; also fatal and transient I/O errors at the same offsets
+                            let f = match oi % 7 {
+                                3 => json!({"kind":"err","at":at,"io":"reset"}),
+                                5 => json!({"kind":"errt","at":at,"io":*r.pick(&["timedout", "wouldblock"])}),
+                                _ => json!({"kind":"cut","at":at}),
+                            };
+                            let mut sc = with(&with(&base, st.clone()), json!({"fault":f,"extra":2}));
                             if oi % 2 == 0 { sc["pre"] = json!(10_000_000); } else { sc["segs"] = json!([he + 3, 5, 1]); }
                             push(&mut out, sc);
                         }
